@@ -33,6 +33,8 @@ def setup_annet():
     hardware_connector.set(AnnetHardwareProvider)
     rulebook_provider_connector.set(DefaultRulebookProvider)
     import annet.api  # noqa  (completes the import graph the way the CLI does)
+    from annet.diff import file_differ_connector, UnifiedFileDiffer
+    file_differ_connector.set(UnifiedFileDiffer)
     _setup_done = True
 
 
